@@ -93,6 +93,7 @@ void GMGPolar::solve()
                 throw std::invalid_argument("Unknown ResidualNormType");
             }
             residual_norms_.push_back(current_residual_norm);
+            VERIF_EVENT("norm", number_of_iterations_, current_residual_norm, static_cast<double>(residual_norms_.size()));
 
             if (number_of_iterations_ == 0) {
                 initial_residual_norm          = current_residual_norm;
@@ -124,6 +125,7 @@ void GMGPolar::solve()
             t_check_convergence +=
                 std::chrono::duration<double>(end_check_convergence - start_check_convergence).count();
 
+            VERIF_EVENT("stoptest", number_of_iterations_, current_residual_norm, current_relative_residual_norm);
             if (converged(current_residual_norm, current_relative_residual_norm))
                 break;
         }
@@ -373,6 +375,7 @@ std::pair<double, double> GMGPolar::computeExactError(Level& level, const Vector
 void GMGPolar::extrapolatedResidual(const int current_level, Vector<double>& residual,
                                     const Vector<double>& residual_next_level)
 {
+    VERIF_TRACE("exResidual", current_level, &residual, &residual_next_level);
     omp_set_num_threads(threads_per_level_[current_level]);
 
     const PolarGrid& fineGrid   = levels_[current_level].grid();
